@@ -67,6 +67,8 @@ pub struct BtcState {
     pub hits: std::collections::BTreeMap<String, (u64, std::collections::BTreeSet<String>)>,
     /// what `getblockchaininfo` reports as `chain`
     pub chain_name: String,
+    /// report a pruned node with this prune height
+    pub prune_height: Option<u64>,
     pub requests: u64,
     pub methods: std::collections::BTreeMap<String, u64>,
 }
@@ -264,11 +266,17 @@ impl FakeBitcoind {
                 n
             }
         };
-        json!({
+        let prune = lock(&self.st.0).prune_height;
+        let mut v = json!({
             "chain": chain_name, "blocks": height, "headers": height, "bestblockhash": tip.to_string(),
             "difficulty": 1.0, "mediantime": 0, "verificationprogress": 1.0, "initialblockdownload": false,
             "chainwork": hex::encode(work.to_be_bytes()), "size_on_disk": 0, "pruned": false, "softforks": {}, "warnings": "",
-        })
+        });
+        if let Some(p) = prune {
+            v["pruned"] = json!(true);
+            v["pruneheight"] = json!(p);
+        }
+        v
     }
 
     /// `Ok(Ok(v))` result, `Ok(Err((code,msg)))` RPC error, `Err(())` drop the connection.
